@@ -402,6 +402,12 @@ class _FuseGen(ast.NodeTransformer):
         outer_used = {x.id for x in ast.walk(node.elt) if isinstance(x, ast.Name)} | {x.id for c in g.ifs for x in ast.walk(c) if isinstance(x, ast.Name)}
         if inner_names & (outer_used - set(m)):
             return node   # the inner loop variable would capture a name of the outer element
+        # an element expression with calls in it is written once only (no duplicated evaluation)
+        for nm, ex in m.items():
+            uses = sum(1 for x in ast.walk(node.elt) if isinstance(x, ast.Name) and x.id == nm) + sum(
+                1 for c in g.ifs for x in ast.walk(c) if isinstance(x, ast.Name) and x.id == nm)
+            if uses > 1 and not _pure_lit(ex):
+                return node
 
         class S(ast.NodeTransformer):
             def visit_Name(self_, x):
